@@ -655,6 +655,19 @@ func (c *Ctx) applyOp(name string, m modeling.Mesh) opRun {
 		attr := c.pickV3Attr(m)
 		iters := c.Rng.Intn(4)
 		factor := []float64{0.5, 0.25, 1, 0.1, 0}[c.Rng.Intn(5)]
+		// the neighbour sum runs in Go map order: the comparison is within a tolerance (2^20 ulps or 1e-6
+		// absolute); keep the magnitudes where rounding differences of reordered sums stay far below it
+		if m.HasFloat3Attribute(attr) {
+			d := m.Float3Attribute(attr)
+			for i := 0; i < d.Len(); i++ {
+				v := d.At(i)
+				if math.Abs(v.X()) > 1e6 || math.Abs(v.Y()) > 1e6 || math.Abs(v.Z()) > 1e6 {
+					c.Note("laplacian:large-magnitude-0-iterations")
+					iters = 0
+					break
+				}
+			}
+		}
 		return runOp(name, fmt.Sprintf("%s %d %s %s", attr, iters, F(factor), ms), false, func() []modeling.Mesh {
 			return one(meshops.LaplacianSmooth(m, attr, iters, factor))
 		})
